@@ -712,6 +712,35 @@ def _shard(shard, nshards, tier, seed):
                             {'part': 'C', 'machine': machine, 'cmio': cmio, 't0': t0, 'letter': li},
                             'trace.py result differs with/without --python in {}'.format(keys or 'a failed run'),
                             tags={'part': 'C', 'machine': machine}, order=2 * 10**6 + i)
+    # ---- part D: complete flag/ALU tables, differentially (every (A, operand/F) tuple of every table-driven instruction)
+    from . import c05
+    units = []
+    for name, code, shape in c05.table_groups():
+        if shape in ('AB', 'Bc', 'Ac', 'AF', 'AM', 'Mc'):
+            for k in range(8):
+                units.append((name, code, shape, k))
+    dregs = regs_list(INIT_REGS[0], '48K')
+    for kinds in PAIRS:
+        pair = Pair(kinds, '48K', True)
+        for ui, (name, code, shape, k) in core.shard_iter(units, shard, nshards):
+            for j, (c, over, pokes) in enumerate(c05.table_cases(name, code, shape)):
+                if j % 8 != k:
+                    continue
+                regs = list(dregs)
+                for rn, v in over.items():
+                    regs[simh.RIDX[rn]] = v
+                pair.reset(regs)
+                for a, v in pokes:
+                    pair.poke(a, (v,))
+                pair.poke(0x8000, c)
+                d = pair.step()
+                stats.evaluations += 1
+                stats.transitions += 2
+                if d:
+                    stats.violation('D/{}/{}/{}/{}'.format(kinds[1], name, ''.join('%02X' % b for b in c), ','.join('%s=%X' % kv for kv in sorted(over.items()))),
+                                    {'part': 'D', 'machine': '48K', 'kinds': list(kinds), 'code': list(c), 'over': over, 'pokes': [list(x) for x in pokes]},
+                                    '; '.join(d[:3]), tags={'part': 'D', 'pair': kinds[1], 'group': name}, order=3 * 10**6 + ui)
+            stats.counters['D_table_units'] += 1
     if shard == 0:
         stats.sample({'part': 'A', 'init': 1, 'history': ['EI', 'DD'], 'final': 'FB (each of 3584 slot fillings)'})
         stats.sample({'part': 'B', 'program': 'LD SP,7F00; IM 2; LD A,7E; LD I,A; EI; <EI;HALT>; JP 7000', 't0': 69788, 'interrupts': True})
@@ -736,14 +765,14 @@ def run(tier, seed):
              'compared after every instruction: 30 registers, whole memory (all banks), latch/paged banks, port log, tracer state. '
              'B: static programs (all letter sequences up to length {}) under run(start, stop, interrupts) with the frame interrupt swept '
              'over the program, IM 1 and IM 2, and step-by-step == single run. states = distinct canonical (registers, memory, latch) '
-             'hashes reached'.format(depth, 2),
+             'hashes reached. D: every (A, operand/F) tuple of every flag-table instruction (ALU A,r; CB rotates; RLCA..CCF; DAA; NEG; INC/DEC; BIT; RLD/RRD) on both pairs'.format(depth, 2),
         exhaustive=True,
         bound='A: depth 2 over all slot fillings (thorough: + depth 3 over one filling / unprefixed slots); B: sequence length 2',
         assumptions=['128K without a tracer is explored only with programs that do not write to ports (no tool runs that configuration; '
                      'C pages internally, Python delegates paging to the tracer)',
                      'single-step run(start) ignores interrupts in Python by construction; interrupt timing is compared through run(start, stop, True) '
                      'and accept_interrupt()'],
-        required_guards=['C_tool_runs', 'B_runs', 'B_interrupt_taken', 'B_interrupts_im1', 'B_interrupts_im2', 'A_inner_states'],
+        required_guards=['D_table_units', 'C_tool_runs', 'B_runs', 'B_interrupt_taken', 'B_interrupts_im1', 'B_interrupts_im2', 'A_inner_states'],
     )
     return stats, meta
 
@@ -751,13 +780,23 @@ def run(tier, seed):
 def replay(case):
     stats = core.Stats()
     machine = case['machine']
-    pair = Pair(tuple(case['kinds']), machine, case.get('tracer', True)) if case['part'] != 'C' else None
+    pair = Pair(tuple(case['kinds']), machine, case.get('tracer', True)) if case['part'] in ('A', 'B') else None
     if case['part'] == 'A':
         S = letters_S(machine)
         regs = regs_list(INIT_REGS[case['init']], machine)
         extra = ((tuple(case['final']),),) if case.get('final') else ()
         d, _ = replay_history(pair, regs, S, tuple(case['hist']), extra, stats)
         return d
+    if case['part'] == 'D':
+        pair = Pair(tuple(case['kinds']), '48K', True)
+        regs = regs_list(INIT_REGS[0], '48K')
+        for rn, v in case['over'].items():
+            regs[simh.RIDX[rn]] = v
+        pair.reset(regs)
+        for a, v in case['pokes']:
+            pair.poke(a, (v,))
+        pair.poke(0x8000, tuple(case['code']))
+        return pair.step()
     if case['part'] == 'C':
         from . import c10
         from .. import tools
